@@ -211,6 +211,56 @@ pub fn c13_case(rng: &mut Rng, _i: u64, st: &mut Stats) -> CaseOutcome {
             }
         }
     }
+    // delimiter shift: two members that differ only in WHERE a delimiter-like character sits between
+    // two adjacent string fields (the end of one pattern / lookahead / mode name or the start of the
+    // next pattern): "a\0","b" against "a","\0b". Any key that joins the strings of a
+    // configuration with that character cannot tell them apart.
+    if rng.chance(1, 2) {
+        let d = *rng.pick(&['\0', '\0', '\0', ',', ';', '\n', ' ', '\t', ':', '#', '=']);
+        let mi = rng.below(base.modes.len());
+        let np = base.modes[mi].pats.len();
+        let dl = |c: char| Re::Lit(c, LitStyle::Verbatim);
+        let mut a = base.clone();
+        let mut b = base.clone();
+        let mut made = false;
+        if np >= 2 {
+            // prefer a pattern with a lookahead (then two string fields are really adjacent)
+            let with_la: Vec<usize> = (0..np - 1).filter(|k| base.modes[mi].pats[*k].la.is_some()).collect();
+            let k = if !with_la.is_empty() && rng.chance(3, 4) { *rng.pick(&with_la) } else { rng.below(np - 1) };
+            if base.modes[mi].pats[k].la.is_some() {
+                st.count("delimiter_shift_between_a_lookahead_and_the_next_pattern");
+            }
+            // both members use the same texts for the two fields (wrapped in a group so that the
+            // added character cannot change their structure); only the place of the character differs
+            let grp = |r: Re| Re::Group(GroupKind::NonCapture, Box::new(r));
+            let y = grp(base.modes[mi].pats[k + 1].re.clone());
+            if let Some((pos, la)) = base.modes[mi].pats[k].la.clone() {
+                // the lookahead of pattern k is directly followed by the text of pattern k + 1
+                let x = grp(la);
+                a.modes[mi].pats[k].la = Some((pos, Re::Cat(vec![x.clone(), dl(d)])));
+                b.modes[mi].pats[k].la = Some((pos, x));
+            } else {
+                let x = grp(base.modes[mi].pats[k].re.clone());
+                a.modes[mi].pats[k].re = Re::Cat(vec![x.clone(), dl(d)]);
+                b.modes[mi].pats[k].re = x;
+            }
+            a.modes[mi].pats[k + 1].re = y.clone();
+            b.modes[mi].pats[k + 1].re = Re::Cat(vec![dl(d), y]);
+            made = true;
+        } else if d != '|' {
+            // mode name against the first pattern
+            a.modes[mi].name.push(d);
+            let y = Re::Group(GroupKind::NonCapture, Box::new(base.modes[mi].pats[0].re.clone()));
+            a.modes[mi].pats[0].re = y.clone();
+            b.modes[mi].pats[0].re = Re::Cat(vec![dl(d), y]);
+            made = true;
+        }
+        if made && d != '|' {
+            family.push((a, "delimiter_shift"));
+            family.push((b, "delimiter_shift"));
+            st.count("families_with_a_delimiter_shift_pair");
+        }
+    }
     for _ in 0..rng.range(1, 2) {
         let from = family[rng.below(family.len())].0.clone();
         let (c, kind) = make_failing(&from, rng);
@@ -464,7 +514,7 @@ pub fn c13(tier: Tier) -> i32 {
     let per2 = if tier == Tier::Quick { 60 } else { 1_000 };
     res.merge(run_cases_subprocess(&ctx, 2, n2, per2));
     let mut report = Report::new(
-        "build sequences of 5-40 builds over a family of near-identical configurations: a base multi-mode configuration and variants differing in exactly one of token type / pattern order / lookahead presence / lookahead polarity / lookahead pattern / one transition / a mode name / mode order / a pattern text / the number of modes (one mode list a strict prefix of the other) / the number of patterns of a mode, an unrelated configuration, and failing configurations (syntax error or unsupported construct in the first, a later or a lookahead pattern), drawn with repetition so that every kind is built before and after its twins. Every build() result is compared with build_uncached() of the same configuration: Ok/Err agreement, mode 0, mode names, token streams on probe inputs in every mode, and the compiled automata (hook dump: names, transitions, priority order, language equivalence over all strings). Sequences run single-threaded in worker subprocesses (stream 1: 10 sequences per process, so many start in a fresh process; stream 2: 60 (quick) or 1000 (thorough) sequences per process, i.e. several hundred distinct configurations in one cache, with configurations built much earlier revisited at random); hook H3 counts the hits and misses actually taken. Distinct by hash of (family, sequence).",
+        "build sequences of 5-40 builds over a family of near-identical configurations: a base multi-mode configuration and variants differing in exactly one of token type / pattern order / lookahead presence / lookahead polarity / lookahead pattern / one transition / a mode name / mode order / a pattern text / the number of modes (one mode list a strict prefix of the other) / the number of patterns of a mode / the position of a delimiter-like character (NUL , ; newline blank tab : #) between two adjacent string fields, an unrelated configuration, and failing configurations (syntax error or unsupported construct in the first, a later or a lookahead pattern), drawn with repetition so that every kind is built before and after its twins. Every build() result is compared with build_uncached() of the same configuration: Ok/Err agreement, mode 0, mode names, token streams on probe inputs in every mode, and the compiled automata (hook dump: names, transitions, priority order, language equivalence over all strings). Sequences run single-threaded in worker subprocesses (stream 1: 10 sequences per process, so many start in a fresh process; stream 2: 60 (quick) or 1000 (thorough) sequences per process, i.e. several hundred distinct configurations in one cache, with configurations built much earlier revisited at random); hook H3 counts the hits and misses actually taken. Distinct by hash of (family, sequence).",
     )
     .floor("builds", 8_000)
 
@@ -476,7 +526,7 @@ pub fn c13(tier: Tier) -> i32 {
     if cfg!(feature = "hooks") && std::env::var("VERIF_HOOKS").map_or(true, |v| v != "0") {
         report = report.floor("h3_hits", 2_000).floor("h3_misses", 2_000);
     }
-    for k in ["token_type", "pattern_order", "lookahead_presence", "lookahead_polarity", "lookahead_pattern", "transition", "mode_name", "mode_order", "pattern_text", "mode_count", "pattern_count"] {
+    for k in ["token_type", "pattern_order", "lookahead_presence", "lookahead_polarity", "lookahead_pattern", "transition", "mode_name", "mode_order", "pattern_text", "mode_count", "pattern_count", "delimiter_shift"] {
         let key: &'static str = Box::leak(format!("built_{}", k).into_boxed_str());
         report = report.floor(key, 100);
     }
